@@ -90,3 +90,37 @@ func TestC09SharedOrderProbe(t *testing.T) {
 	}
 	vlib.KnownProbe(t, ev, "shared-order", "before-mutates-sort-order", struct{}{}, f)
 }
+
+// Deterministic probe for the known finding keyEmptyKw: three documents (k1 = "", k1 = "a", no
+// k1), sorted ascending with missing values first: the document without the field must come
+// first; the shipped sentinel ("\x00") puts the empty string in front of it.
+func probeEmptyKeyword() *vlib.Failure {
+	s := func(v string) *string { return &v }
+	var ops []Op
+	for i, v := range []*string{s(""), s("a"), nil} {
+		ops = append(ops, Op{Kind: "ins", Doc: Doc{ID: fmt.Sprintf("e%d", i), Body: "aa", Cat: "x", K1: v}})
+	}
+	c := IndexCase{
+		Index:   IndexSpec{Batches: [][]Op{ops}},
+		Queries: []QSpec{{Kind: "all"}},
+		Reqs: []Req{
+			{Q: 0, Keys: []Key{{F: "k1", MF: true}}, N: 10},
+			{Q: 0, Keys: []Key{{F: "k1", Desc: true}}, N: 10},
+		},
+	}
+	judgeEmptyKw = true
+	defer func() { judgeEmptyKw = false }()
+	var cs caseStats
+	return propIndex(c, &cs)
+}
+
+func TestC09EmptyKeywordProbe(t *testing.T) {
+	f := probeEmptyKeyword()
+	ev.Evals(1)
+	ev.Class("probe:empty-keyword", 1)
+	if f != nil && f.Key != "wrong-slice" {
+		vlib.Report(t, ev, "index", struct{}{}, f)
+		return
+	}
+	vlib.KnownProbe(t, ev, "index", keyEmptyKw, struct{}{}, f)
+}
